@@ -420,9 +420,11 @@ func compare(c *h.Check, strict bool, hist []Op) {
 	rc := replayCase{Strict: strict, Hist: hist}
 	n := len(hist)
 	last := hist[n-1]
+	bad := 0
 	report := func(sig, detail string) {
+		bad++
 		c.Violate("fold-mismatch", fmt.Sprintf("strict=%v %s", strict, sig),
-			fmt.Sprintf("mode strict=%v, log %s\n%s", strict, histString(hist), detail), rc)
+			fmt.Sprintf("mode strict=%v, log %s\n%s", strict, histString(rc.Hist), detail), rc)
 	}
 	defer func() {
 		if r := recover(); r != nil {
@@ -448,12 +450,13 @@ func compare(c *h.Check, strict bool, hist []Op) {
 		errsBefore := im.errs
 		err := im.m.Apply(ev)
 		fails, onErr := mo.Step(o, pos, strict)
-		at := fmt.Sprintf("Apply of event %d (%s)", pos, o.short())
+		at := fmt.Sprintf("Apply(%s)", o.short())
+		rc.Hist = hist[:pos]
 		if fails && err == nil {
-			report(at+": no error for an event that cannot be applied", fmt.Sprintf("%s returned nil", at))
+			report(at+": no error for an event that cannot be applied", fmt.Sprintf("Apply of event %d returned nil", pos))
 		}
 		if !fails && err != nil {
-			report(at+": unexpected error", fmt.Sprintf("%s returned %v", at, err))
+			report(at+": unexpected error", fmt.Sprintf("Apply of event %d returned %v", pos, err))
 		}
 		for _, d := range im.diff(mo) {
 			report(at+": "+d[0], d[1])
@@ -475,7 +478,13 @@ func compare(c *h.Check, strict bool, hist []Op) {
 		if delta := im.errs - errsBefore; onErr >= 0 && delta != onErr {
 			report(at+": OnError call count", fmt.Sprintf("OnError called %d times for this event, want %d", delta, onErr))
 		}
+		if bad > 0 {
+			// the first deviating step is the finding; later steps and the replay
+			// sessions of this log would only repeat its consequences
+			return
+		}
 	}
+	rc.Hist = hist
 
 	// 2. one Replay session over a real MemoryStore-backed bus. bus.Replay stops at the
 	// first event whose Apply fails, so the reference is the fold of the log up to there.
@@ -567,7 +576,7 @@ func compare(c *h.Check, strict bool, hist []Op) {
 // sequence is executed (no merging), beyond that histories are merged on the model state.
 func bounds(thorough bool) (depth, full int) {
 	if thorough {
-		return 7, 4
+		return 7, 3
 	}
 	return 5, 3
 }
